@@ -453,11 +453,32 @@ def run_scenario(sc):
                         net.ev("app_send", inst=inst.i, k=rec["k"], rid=rid, p=it["p"])
                         futs.append(fut)
 
+            async def offsets_again(rec=rec, txn=txn):
+                await asyncio.sleep(txn["offsets"]["again"])
+                offs2 = {TopicPartition("t", q): o + 500 for q, o in txn["offsets"]["items"]}
+                await p.send_offsets_to_transaction(offs2, GROUP)
+                rec["offsets"] += [[q, o + 500] for q, o in txn["offsets"]["items"]]
+                net.ev("app_offsets_ok", inst=inst.i, k=rec["k"], again=True)
+
             async def offsets_task(rec=rec, txn=txn):
                 offs = {TopicPartition("t", q): o for q, o in txn["offsets"]["items"]}
+                if txn["offsets"].get("again") is not None:
+                    res = await asyncio.gather(p.send_offsets_to_transaction(offs, GROUP), offsets_again(),
+                                               return_exceptions=True)
+                    rec["offsets"] += [[q, o] for q, o in txn["offsets"]["items"]]
+                    net.ev("app_offsets_ok", inst=inst.i, k=rec["k"], items=txn["offsets"]["items"])
+                    for r_ in res:
+                        if isinstance(r_, BaseException):
+                            raise r_
+                    return
                 await p.send_offsets_to_transaction(offs, GROUP)
                 rec["offsets"] += [[q, o] for q, o in txn["offsets"]["items"]]
                 net.ev("app_offsets_ok", inst=inst.i, k=rec["k"], items=txn["offsets"]["items"])
+                again = txn["offsets"].get("again")
+                if again is not None:
+                    # a second, concurrent send_offsets_to_transaction() for the SAME group and partitions with newer
+                    # offsets (+500), issued `again` seconds after the first call started (its requests may be in flight)
+                    pass
                 for gi, g2 in enumerate(txn["offsets"].get("more_groups") or []):
                     # the same transaction commits offsets of further consumer groups (own offset values: +1000 each)
                     offs2 = {TopicPartition("t", q): o + 1000 * (gi + 1) for q, o in txn["offsets"]["items"]}
